@@ -19,7 +19,7 @@ func (c14) Budget(tier string) (int, int) {
 	if tier == "thorough" {
 		return 5000000, 600
 	}
-	return 40000, 25
+	return 20000, 90
 }
 func (c14) Rule() string {
 	return "seeded histories of 1-12 calls of Valid / SkipValue / SkipValueFast / HandleArrayValues / HandleObjectValues that all pass the same Buffer (sometimes two, alternating), on documents of every class so that the history contains successes, syntax failures, depth-limit exits (10,001+), truncated documents and traversals aborted by an injected handler error. Faults: B-scribble / B-resize (every element of the stack incl. spare capacity overwritten with negative, huge and plausible state numbers, length reset to 0/1/len-1/len/2/cap/nil) between calls and inside callbacks; H-reenter: the handler re-enters the library (SkipValue, SkipValueFast, Valid, nested Handle*, ReadValue) on the member, on the whole document or on a deeper document, with the enclosing call's own Buffer / a second Buffer / nil; nested traversals sharing the Buffer at several levels. Inputs are fresh copies or live in one reused read buffer (same address for every call, sometimes same length with different bytes); some cheap calls are repeated 300-12,000 times. Oracle: every call is executed a second time on a fresh copy of the input with no Buffer anywhere and the same decision tape; result, offset, error identity and the full callback history (incl. results of re-entrant calls) must be identical. Non-trivial: >= 2 calls touched the Buffer or a fault fired; distinct = distinct hashes of (operation, document class, outcome, decisions, scribbles) sequences."
